@@ -73,6 +73,7 @@ def check_case(case):
     world = pddl.World(dom, objects)
     objs = lib_objects(domain, build_objects(domain, objects))
     truth = {}
+    prev_state = None
     for i, pr in enumerate(case["probes"]):
         a = pddl.find_action(dom, pr["action"])
         st = unjstate(pr["state"])
@@ -83,8 +84,18 @@ def check_case(case):
                 res.skipped = "problem-parse-error(C05)"
                 return res
             state = ps[1]
+        elif i % 3 == 2 and prev_state is not None:
+            # the same State object with its content replaced in place: answers must follow the content
+            fresh = build_state(domain, world, st)
+            state = prev_state
+            state.state_predicates.clear()
+            state.state_predicates.update(fresh.state_predicates)
+            state.state_fluents.clear()
+            state.state_fluents.update(fresh.state_fluents)
+            res.classes.append("state-object-reused")
         else:
             state = build_state(domain, world, st)
+        prev_state = state
         ok2, got = lib_applicable(domain, a["name"], pr["args"], objs, state)
         exp = judge(res, "C02/applicable", a["pre"], env, st, world, ok2, got,
                     {"pre": a["pre"], "args": pr["args"], "state": pr["state"]})
